@@ -168,7 +168,7 @@ func cmdCheck(args []string) int {
 		}
 	}
 	genS := time.Since(t0).Seconds() - loadS
-	cfg := solveConfig{dir: filepath.Join(os.TempDir(), fmt.Sprintf("govc-%d", os.Getpid())), timeoutS: 20, workers: 14, keepFiles: *keep}
+	cfg := solveConfig{dir: filepath.Join(os.TempDir(), fmt.Sprintf("govc-%d", os.Getpid())), timeoutS: 60, workers: 14, phaseA: os.Getenv("GOVC_NO_PHASEA") == "", keepFiles: *keep}
 	if *tier == "thorough" {
 		cfg.timeoutS = 60
 		cfg.confirm = true
